@@ -121,13 +121,30 @@ contract("pygamma_agreement/continuum.py::Continuum.avg_length_unit", params={"s
          ensures=[cl("result > 0", "C16 C19", name="a-mean-of-positive-durations")],
          serves={"C16", "C19"})
 
+# proved over the RNG model: the weights are the segment lengths over their sum - a probability vector whenever every segment has positive
+# length - so np.random.choice cannot raise (the `return 1` fallback is dead code under the requires: an obligation, not an assumption)
+from pyvc.contract import Lemma   # noqa: E402
+_RS_LEMMAS = [
+    Lemma("rpsum_scaled", "rpsum(g, k) * s == rpsum(f, k)", binders=[("f", "AReal"), ("g", "AReal"), ("s", "Real"), ("k", "Int")],
+          hyps=["0 <= k", "s != 0", "forall(i, 0, k, g[i] * s == f[i])"], method=("induction", "k", "0", "fixed")),
+    Lemma("rpsum_positive", "rpsum(f, k) > 0", binders=[("f", "AReal"), ("k", "Int")],
+          hyps=["1 <= k", "forall(i, 0, k, f[i] > 0)"], method=("induction", "k", "1", "fixed")),
+]
 contract(F + "ShuffleContinuumSampler._random_from_segments",
-         params={"self": SHUF(), "segments": ListOf(SegT())}, returns=RealT(), modifies=[], macros=COVER[:1], trusted=True,
+         params={"self": SHUF(), "segments": ListOf(SegT())}, returns=RealT(), modifies=[], macros=COVER[:1], lemmas=_RS_LEMMAS,
+         export_lemmas=False,
+         ghost_vars={"W0": ("AReal", None), "S0": ("Real", None)},
          requires=["len(segments) >= 1", "forall(i, 0, len(segments), segments[i].start < segments[i].end)"],
          ensures=[cl("pt(result) and implies(self._pivot_type == 'float_pivot', cover(segments, result))", "C16", name="float-pivot-lies-in-an-available-segment"),
                   cl("implies(self._pivot_type == 'int_pivot', isint(result))", "C16", name="int-pivot-is-a-whole-number")],
-         notes="ASSUMED (RNG model: np.random.choice returns one of the segments - every weight is positive under the requires, so the "
-               "ValueError fallback `return 1` is not reachable - and np.random.uniform a point of it; int() gives a whole number)",
+         hooks=[("after", "weights = ...", "W0 = raw(weights)"),
+                ("after", "weights = ...", "use rpsum_positive(f=W0, k=len(segments))"),
+                ("after", "weights = ...", "S0 = rpsum(W0, len(segments))"),
+                ("after", "weights /= np.sum(weights)", "use rpsum_scaled(f=W0, g=raw(weights), s=S0, k=len(segments))"),
+                ("after", "weights /= np.sum(weights)", "assert rpsum(raw(weights), len(segments)) == 1")],
+         unreachable=["return 1"],
+         notes="RNG model: np.random.choice(list, p=float array) raises ValueError unless the weights are a probability vector, else returns "
+               "one of the segments; np.random.uniform a point of it; int() gives a whole number",
          serves={"C16"})
 
 SHUF_MACROS = VIEW_MACROS + COVER[:1] + [
